@@ -173,20 +173,92 @@ func checkC09(c *Check) {
 	c.Rule("R2", "E1 guard-cut", "HeaderMatcher.Match returns true only when the iteration over all constraints is exhausted; continuing past a constraint requires a non-empty header value that its expression matches", 3)
 	if m := p.Meth("route", "HeaderMatcher", "Match"); m != nil {
 		key := p.FuncKey(m)
-		var next *ssa.Next
+		var next ssa.Instruction
+		var okEdgesExhausted EdgeSet
+		var nameV, reV VM
+		canonicalKey := false // the entry's name is stored in canonical form (then header[name] is what header.Get reads)
 		allInstrs(m, func(in ssa.Instruction) {
 			if n, ok := in.(*ssa.Next); ok {
 				if rg, ok := n.Iter.(*ssa.Range); ok && vField(vParam(m, 0), "matches")(rg.X) {
 					next = n
+					okEdgesExhausted = edgesWhere(m, cBool(vExtract(0, vIs(n))), false)
+					nameV = vExtract(1, vIs(n))
+					reV = vExtract(2, vIs(n))
 				}
 			}
 		})
 		if next == nil {
+			// the constraints as a list of (name, expression) records visited in ascending order
+			list := vField(vParam(m, 0), "matches")
+			var idx ssa.Value
+			allInstrs(m, func(in ssa.Instruction) {
+				if ia, ok := in.(*ssa.IndexAddr); ok && idx == nil && list(ia.X) && ascendingIndex(ia.Index) {
+					idx = ia.Index
+				}
+			})
+			if idx != nil {
+				exh := edgesWhere(m, cCmp(token.LSS, vIs(idx), vLen(list)), false)
+				for e := range exh {
+					next = e.B.Instrs[len(e.B.Instrs)-1]
+				}
+				okEdgesExhausted = exh
+				var elemRoot func(v ssa.Value) bool
+				elemRoot = func(v ssa.Value) bool {
+					v = strip(v)
+					if al, ok := v.(*ssa.Alloc); ok && !al.Heap {
+						// the range variable spilled into a local: every store is the current element
+						sts := cellStores(al, 0)
+						for _, st := range sts {
+							if _, isAl := strip(st.Val).(*ssa.Alloc); isAl || !elemRoot(st.Val) {
+								return false
+							}
+						}
+						return len(sts) > 0
+					}
+					if u, ok := v.(*ssa.UnOp); ok && u.Op == token.MUL {
+						v = u.X
+					}
+					ia, ok := v.(*ssa.IndexAddr)
+					return ok && list(ia.X) && strip(ia.Index) == strip(idx)
+				}
+				var nameF, reF *types.Var
+				if sl, ok := derefT(idxElemType(m, list)).Underlying().(*types.Struct); ok {
+					for i := 0; i < sl.NumFields(); i++ {
+						f := sl.Field(i)
+						if b, ok := f.Type().Underlying().(*types.Basic); ok && b.Kind() == types.String && nameF == nil {
+							nameF = f
+						}
+						if strings.HasSuffix(f.Type().String(), "regexp.Regexp") && reF == nil {
+							reF = f
+						}
+					}
+				}
+				if nameF != nil && reF != nil && next != nil {
+					nameV = vField(elemRoot, nameF.Name())
+					reV = vField(elemRoot, reF.Name())
+					// every store of the name field is http.CanonicalHeaderKey(…) or textproto's
+					stores, canon := 0, 0
+					for _, u := range p.FieldUses(nameF) {
+						if st, ok := u.Instr.(*ssa.Store); ok && u.Kind == "store" {
+							stores++
+							if cl := asCall(st.Val); cl != nil {
+								if n := callName(&cl.Call); n == "net/http.CanonicalHeaderKey" || n == "net/textproto.CanonicalMIMEHeaderKey" {
+									canon++
+								}
+							}
+						}
+					}
+					canonicalKey = stores > 0 && stores == canon
+				} else {
+					next = nil
+				}
+			}
+		}
+		if next == nil {
 			c.Undecided(key+":loop", p.FuncPos(m), "no range over the constraint map found")
 		} else {
-			okV := vExtract(0, vIs(next))
-			nameV := vExtract(1, vIs(next))
-			reV := vExtract(2, vIs(next))
+			okV := vAny
+			_ = okV
 			hp := vParam(m, 1)
 			// header.Get(name), or its definition textproto.MIMEHeader(header).Get(name)
 			hpConv := func(v ssa.Value) bool {
@@ -197,11 +269,28 @@ func checkC09(c *Check) {
 				return ok && hp(cv.X)
 			}
 			getV := vOr(vCall("(net/http.Header).Get", hp, nameV), vCall("(net/textproto.MIMEHeader).Get", hpConv, nameV))
+			if canonicalKey {
+				// header[key][0] for a key stored in canonical form is header.Get's value where one exists
+				// (an absent header has no element 0: the index obligation of C07.R2 covers that)
+				first := func(v ssa.Value) bool {
+					u, ok := strip(v).(*ssa.UnOp)
+					if !ok || u.Op != token.MUL {
+						return false
+					}
+					ia, ok := u.X.(*ssa.IndexAddr)
+					if !ok || !vConstInt(0)(ia.Index) {
+						return false
+					}
+					lk, ok := strip(ia.X).(*ssa.Lookup)
+					return ok && !lk.CommaOk && hpConv(lk.X) && nameV(lk.Index)
+				}
+				getV = vOr(getV, first)
+			}
 			mayBeTrue := func(in ssa.Instruction) bool {
 				r, ok := in.(*ssa.Return)
 				return ok && len(r.Results) == 1 && !vConstBool(false)(r.Results[0])
 			}
-			exhausted := edgesWhere(m, cBool(okV), false)
+			exhausted := okEdgesExhausted
 			// a nil matcher has no constraints at all (what an unconstrained leaf holds): true there is vacuous
 			exhausted = union(exhausted, edgesWhere(m, cCmp(token.EQL, vParam(m, 0), vNil), true))
 			in, path := Query{Fn: m, Cut: exhausted}.FromEntry(mayBeTrue)
@@ -210,7 +299,7 @@ func checkC09(c *Check) {
 			} else {
 				c.Bad(key+":true-only-at-exhaustion", p.FuncPos(m), "Match can return true before every constraint has been examined", blockPath(path))
 			}
-			cont := func(in ssa.Instruction) bool { return in == ssa.Instruction(next) || mayBeTrue(in) }
+			cont := func(in ssa.Instruction) bool { return in == next || mayBeTrue(in) }
 			nonEmpty := union(
 				edgesWhere(m, cEmptyStr(getV), false),
 				edgesWhere(m, cCmp(token.GTR, vLen(getV), vConstInt(0)), true),
@@ -667,4 +756,21 @@ func headerRejectEdges(fn *ssa.Function) EdgeSet {
 		}
 	})
 	return out
+}
+
+// idxElemType returns the element type of the slice-typed field "matches" of fn's receiver (nil-safe: an
+// invalid type when there is none).
+func idxElemType(fn *ssa.Function, _ VM) types.Type {
+	if len(fn.Params) > 0 {
+		if st, ok := derefT(fn.Params[0].Type()).Underlying().(*types.Struct); ok {
+			for i := 0; i < st.NumFields(); i++ {
+				if aliasedFieldName(st.Field(i)) == "matches" {
+					if sl, ok := st.Field(i).Type().Underlying().(*types.Slice); ok {
+						return sl.Elem()
+					}
+				}
+			}
+		}
+	}
+	return types.Typ[types.Invalid]
 }
